@@ -696,9 +696,10 @@ Record steering := mkSteer {
   t_ch1_alpn : option (list N);        (* ALPN offer replaced (when present) *)
   t_ch1_strip_ems : bool;
   t_ch1_strip_sni : bool;
-  t_sh_alpn : N                        (* the ServerHello names this protocol (0 = untouched) *)
+  t_sh_alpn : N;                       (* the ServerHello hook names this protocol (0 = untouched) *)
+  t_sh_suite : N                       (* the ServerHello hook names this cipher suite (0 = untouched) *)
 }.
-Definition no_steering : steering := mkSteer None None false false 0.
+Definition no_steering : steering := mkSteer None None false false 0 0.
 
 Definition remove_ext (x : N) (l : list N) : list N := filter (fun y => negb (y =? x)) l.
 
@@ -741,11 +742,14 @@ Definition negotiate12_steered (ck sk : conn) (seeded hv : bool) (t : steering) 
   let f := steer_flight t f0 in
   (* FinalizeServerHello re-validates the hooked ServerHello against the offer *)
   lift Server (req (validate_response_exts h2 (f_sh_exts f)) g11_alert_unsupported_extension) (fun _ =>
+  (* commitFinalServerHello: the server's own view follows the FINAL ServerHello - its ALPN selection is the one
+     committed (steer_flight), another cipher suite than the one the keys are derived for is refused *)
+  lift Server (req ((t_sh_suite t =? 0) || (t_sh_suite t =? f_suite f0)) g11_alert_internal_error) (fun _ =>
   lift Client (of_opt (select_version [v12] (k_min ck) (k_max ck)) g11_alert_protocol_version) (fun _ =>
   let csuites := filter_for_version v12 (k_suites ck) in
   if negb (nonempty csuites) then Silent Client else
   lift Client (client12 ck sk csuites h2 f) (fun o =>
-  lift Server (server_finish false sk ck o) Ok)))).
+  lift Server (server_finish false sk ck o) Ok))))).
 
 Definition negotiate_steered (c s : cfg) (seeded hv : bool) (t : steering) : option result :=
   match build true c, build false s with
